@@ -294,34 +294,6 @@ func execRadix(cs *Case) (*V, string) {
 	return nil, fmt.Sprintf("radix:len=%d,last=%s,changed=%v", len(model), lastKind, lastEffect)
 }
 
-// execRadixFromMap: NewFromMap of every subset.
-func execRadixFromMap(cs *Case) (*V, string) {
-	in := map[string]int{}
-	for i, k := range cs.Keys {
-		if cs.A>>i&1 == 1 {
-			in[k] = i + 1
-		}
-	}
-	t := radix.NewFromMap(in)
-	if t.Len() != len(in) {
-		return viol("radix/NewFromMap/Len", "Len()=%d for map %v", t.Len(), in), ""
-	}
-	for _, k := range radixProbe {
-		got, ok := t.Get([]byte(k))
-		want, wok := in[k]
-		if ok != wok || (ok && got != want) {
-			return viol("radix/NewFromMap/Get", "Get(%q)=(%d,%v), map has (%d,%v)", k, got, ok, want, wok), ""
-		}
-	}
-	ks := sortedKeys(in)
-	mk, mv, mok := t.Minimum()
-	xk, xv, xok := t.Maximum()
-	if mok != (len(ks) > 0) || xok != (len(ks) > 0) || (len(ks) > 0 && (string(mk) != ks[0] || mv != in[ks[0]] || string(xk) != ks[len(ks)-1] || xv != in[ks[len(ks)-1]])) {
-		return viol("radix/NewFromMap/MinMax", "Minimum=(%q,%d,%v) Maximum=(%q,%d,%v) for keys %q", mk, mv, mok, xk, xv, xok, ks), ""
-	}
-	return nil, fmt.Sprintf("radix-frommap:len=%d", len(in))
-}
-
 // ---------------------------------------------------------------- bloom
 
 var bloomKeys = []string{"", "a", "b", "ab", "ac", "\x00", "abc", "cpu,host=a"}
@@ -705,8 +677,6 @@ func exec(cs *Case) (v *V, outcome string) {
 			v, outcome = execRhh(cs)
 		case "radix":
 			v, outcome = execRadix(cs)
-		case "radix-frommap":
-			v, outcome = execRadixFromMap(cs)
 		case "bloom":
 			v, outcome = execBloom(cs)
 		case "sids":
@@ -849,9 +819,6 @@ func (e *explorer) explore() {
 	lap := func(what string) { c.Logf("shard %d: %s done at %.1fs", c.Shard, what, time.Since(t0).Seconds()) }
 	lap("sids pairs")
 	// ---- radix
-	for a := 0; a < 1<<len(radixKeys); a++ {
-		e.one(Case{Fam: "radix-frommap", Keys: radixKeys, A: a}, always)
-	}
 	rd := 5
 	if c.Thorough() {
 		rd = 6
@@ -949,7 +916,7 @@ func TestCheck(t *testing.T) {
 		ID: "C36", Level: "exploration",
 		Rule: "four families, each complete within its bounds, against Go map/set models. " +
 			"sids: every ordered pair (A,B) of subsets of ids {1,2,3,2^16,2^32-1,2^32+1} through NewSeriesIDSet/Add/AddMany/AddNoLock, And, AndNot, Merge, MergeInPlace, Diff, Intersects, Equals, Clone(+mutate clone/original), Remove, Clear, WriteTo->UnmarshalBinary(+Unsafe), each observed by Cardinality/Contains/Slice/ForEach (thorough: also every triple through variadic Merge). " +
-			"radix: NewFromMap of every subset of {\"\",a,ab,abc,b,ab\\x00}; every sequence of length 1..5 (thorough 1..6) over Insert(6 keys) and DeletePrefix(8 prefixes), observed by Len after every op and by Get(10 probes)/Minimum/Maximum at the end. " +
+			"radix: every sequence of length 1..5 (thorough 1..6) over Insert(6 keys {\"\",a,ab,abc,b,ab\\x00}) and DeletePrefix(8 prefixes), observed by Len after every op and by Get(10 probes)/Minimum/Maximum at the end. " +
 			"rhh: every sequence of length 1..5 (thorough 1..6) over Put/PutQuiet(6 keys with colliding home slots)/Reset/Grow from capacity 2, load factor 90 (thorough: also capacity 4, 8, load factor 50, 100 to depth 5), observed by Len after every op and Get/Keys/Elem scan at the end; separate family with the empty key to depth 4. " +
 			"bloom: every pair (A,B) of subsets of 8 keys (quick: B over 6 keys) for m in {8,64} x k in {1,2,3} (thorough m in {8,9,64,512}, k in 1..4): no false negative after Insert, Bytes->NewFilterBuffer, Clone(+Insert), Merge. " +
 			"non-trivial = sids pair not both empty; radix sequence whose last op changed the map; rhh sequence ending with a displaced element (probe distance>0); bloom with A non-empty (distinct by construction)",
@@ -959,7 +926,7 @@ func TestCheck(t *testing.T) {
 			"a case that does not return within 30 s is reported as a hang",
 			"bloom false positives are counted as outcomes only; the statement constrains false negatives only",
 		},
-		QuickBudgetS: 45, ThoroughBudgetS: 800,
+		QuickBudgetS: 70, ThoroughBudgetS: 800,
 		Run:    run,
 		Replay: replay,
 	})
